@@ -297,7 +297,14 @@ def evaluate_cases(P, ctx, cases):
             with time_limit(getattr(P, 'CASE_TIMEOUT', 20)):
                 impl = P.impl(c, aux)
         except CaseTimeout:
-            impl = 'err:timeout'
+            # the limit is wall-clock: on a loaded machine a healthy case can exceed it.  Before 'err:timeout' becomes an
+            # observation the case is run once more with ten times the limit (a real hang still ends, just later).
+            ctx.count('case-timeouts-retried')
+            try:
+                with time_limit(10 * getattr(P, 'CASE_TIMEOUT', 20)):
+                    impl = P.impl(c, aux)
+            except CaseTimeout:
+                impl = 'err:timeout'
         except Exception as e:  # harness bug, not an implementation exception (those are canonicalised by P.impl)
             raise RuntimeError('impl runner crashed on %s: %r' % (c.key(), e)) from e
         o = Outcome(c, impl, model, spec, aux)
